@@ -78,6 +78,12 @@ enum Op {
     Acl { who: Who, extra: u8, salt: u8 },
     KeySet { who: Who, id: u8, salt: u8 },
     KeySetRemove { who: Who, id: u8 },
+    /// GroupKeyMap write: key material for the group ids 1 and 2 (needed by AddGroup)
+    KeyMap { who: Who, salt: u8 },
+    /// Groups::AddGroup on application endpoint `ep` (1..=4) for group `g` (1 or 2)
+    Group { who: Who, ep: u8, g: u8, salt: u8 },
+    /// Groups::RemoveGroup / RemoveAllGroups (`g` = 0)
+    GroupRemove { who: Who, ep: u8, g: u8 },
     Label { who: Who, salt: u8 },
     SetVid { who: Who, salt: u8 },
     AddWifi { who: Who, n: u8, salt: u8 },
@@ -127,6 +133,9 @@ fn any_op() -> impl Strategy<Value = Op> {
         3 => (who(), 0u8..3, any::<u8>()).prop_map(|(who, extra, salt)| Op::Acl { who, extra, salt }),
         2 => (who(), 1u8..4, any::<u8>()).prop_map(|(who, id, salt)| Op::KeySet { who, id, salt }),
         1 => (who(), 1u8..4).prop_map(|(who, id)| Op::KeySetRemove { who, id }),
+        1 => (who(), any::<u8>()).prop_map(|(who, salt)| Op::KeyMap { who, salt }),
+        2 => (who(), 1u8..=4, 1u8..=2, any::<u8>()).prop_map(|(who, ep, g, salt)| Op::Group { who, ep, g, salt }),
+        1 => (who(), 1u8..=4, 0u8..=2).prop_map(|(who, ep, g)| Op::GroupRemove { who, ep, g }),
         1 => (who(), any::<u8>()).prop_map(|(who, salt)| Op::Label { who, salt }),
         1 => (who(), any::<u8>()).prop_map(|(who, salt)| Op::SetVid { who, salt }),
         3 => (who(), 0u8..6, any::<u8>()).prop_map(|(who, n, salt)| Op::AddWifi { who, n: n % 3 + (n / 5) * 3, salt }),
@@ -191,6 +200,8 @@ fn flow(kind: u8, t: u8, salt: u8, extended: bool) -> Vec<Op> {
             Op::AddNoc { who: Who::Pase, v: NocVariant::Good },
             Op::Acl { who: Who::CaseNew, extra: 1 + salt % 2, salt },
             Op::KeySet { who: Who::CaseNew, id: 1, salt },
+            Op::KeyMap { who: Who::CaseNew, salt },
+            Op::Group { who: Who::CaseNew, ep: 1 + salt % 4, g: 1, salt },
             Op::Complete { who: Who::CaseNew },
         ],
         1 => vec![
@@ -258,6 +269,9 @@ fn op_who(op: &Op) -> Option<Who> {
         | Op::Acl { who, .. }
         | Op::KeySet { who, .. }
         | Op::KeySetRemove { who, .. }
+        | Op::KeyMap { who, .. }
+        | Op::Group { who, .. }
+        | Op::GroupRemove { who, .. }
         | Op::Label { who, .. }
         | Op::SetVid { who, .. }
         | Op::AddWifi { who, .. }
@@ -281,6 +295,9 @@ fn rewho(op: &Op, w: Who) -> Op {
         | Op::Acl { who, .. }
         | Op::KeySet { who, .. }
         | Op::KeySetRemove { who, .. }
+        | Op::KeyMap { who, .. }
+        | Op::Group { who, .. }
+        | Op::GroupRemove { who, .. }
         | Op::Label { who, .. }
         | Op::SetVid { who, .. }
         | Op::AddWifi { who, .. }
@@ -762,6 +779,9 @@ fn run_segment<CC: rs_matter::crypto::Crypto>(
             | Op::Acl { who, .. }
             | Op::KeySet { who, .. }
             | Op::KeySetRemove { who, .. }
+            | Op::KeyMap { who, .. }
+            | Op::Group { who, .. }
+            | Op::GroupRemove { who, .. }
             | Op::Label { who, .. }
             | Op::SetVid { who, .. }
             | Op::AddWifi { who, .. }
@@ -1024,6 +1044,27 @@ fn run_segment<CC: rs_matter::crypto::Crypto>(
                 let e = if af == 0 { Expect::Refuse } else { Expect::Either };
                 (Cmd::KeySetWrite { id: *id as u16, epoch_key0: vec![*salt; 16], start0: 1 + *salt as u64 }, e)
             }
+            Op::KeyMap { salt, .. } => {
+                let e = if af == 0 { Expect::Refuse } else { Expect::Either };
+                (Cmd::WriteGroupKeyMap { entries: vec![(1, 1 + (*salt as u16 & 1)), (2, 1)] }, e)
+            }
+            Op::Group { ep, g, salt, .. } => {
+                let e = if af == 0 { Expect::Refuse } else { Expect::Either };
+                (Cmd::AddGroup { ep: *ep as u16, group: *g as u16, name: format!("grp-{}", salt % 4) }, e)
+            }
+            Op::GroupRemove { ep, g, .. } => {
+                let e = if af == 0 { Expect::Refuse } else { Expect::Either };
+                if *g == 0 {
+                    (Cmd::RemoveAllGroups { ep: *ep as u16 }, e)
+                } else {
+                    // mostly an existing membership of the accessing fabric
+                    let table = group_tables(b.matter).remove(&af).unwrap_or_default();
+                    match table.get(*ep as usize % (table.len() + 1)) {
+                        Some(r) if !r.endpoints.is_empty() => (Cmd::RemoveGroup { ep: r.endpoints[*g as usize % r.endpoints.len()], group: r.group_id }, e),
+                        _ => (Cmd::RemoveGroup { ep: *ep as u16, group: *g as u16 }, e),
+                    }
+                }
+            }
             Op::KeySetRemove { id, .. } => {
                 let e = if af == 0 { Expect::Refuse } else { Expect::Either };
                 (Cmd::KeySetRemove { id: *id as u16 }, e)
@@ -1249,7 +1290,14 @@ fn run_segment<CC: rs_matter::crypto::Crypto>(
                 m.vid_touched.insert(af);
                 p.labels.push("vid-statement-while-armed".into());
             }
-            Op::Acl { .. } | Op::KeySet { .. } | Op::KeySetRemove { .. } | Op::Label { .. } | Op::SetVid { .. } => {
+            Op::Acl { .. }
+            | Op::KeySet { .. }
+            | Op::KeySetRemove { .. }
+            | Op::KeyMap { .. }
+            | Op::Group { .. }
+            | Op::GroupRemove { .. }
+            | Op::Label { .. }
+            | Op::SetVid { .. } => {
                 if kv_failed {
                     m.tainted.insert(af);
                 }
@@ -1466,7 +1514,8 @@ fn check_history(case: &C08Case) -> Case {
             },
         };
         p.restart_pending = false;
-        let r = boot(&cfg, &kv, &net, &ctrls, |b| {
+        // (the device has the application endpoints 1-4 with the Groups cluster besides the root endpoint)
+        let r = boot_app(&cfg, &BootOpts::default(), &kv, &net, &ctrls, |b| {
             run_segment(b, case, &w, &mut m, &mut p, &ctrl_fab_idx);
             if p.verdict.is_none() && !p.restart_pending {
                 // ---- end of history: let an armed fail-safe run out, then the final checks
@@ -1540,7 +1589,7 @@ fn main() {
     let mut run = Run::new(
         "C08",
         "exploration",
-        "histories of up to 44 administrative operations (ArmFailSafe 0/short/long, CSRRequest add/update, AddTrustedRootCertificate good/corrupt, AddNOC/UpdateNOC good/wrong key/bad admin subject, ACL writes, key-set writes/removals, Wi-Fi add/remove, SetRegulatoryConfig, CommissioningComplete, RevokeCommissioning, OpenBasicCommissioningWindow) from {PASE, CASE of existing fabric A, CASE of existing fabric B, CASE of the fabric being commissioned}, built from 1-3 well-ordered commissioning flows perturbed by insert/delete/duplicate/swap/re-address/truncate edits plus random operations, with waits, timer expiry, restarts and fail-the-n-th-KV-write in between, on a device with 0-2 pre-existing fabrics (Wi-Fi or Ethernet root endpoint, sessions planted or established by real PASE/CASE handshakes). Non-trivial: the history reached an accepted AddNOC or UpdateNOC, or an accepted ACL/key-set/network write under a fail-safe armed for that fabric, before that fail-safe context ended in a rollback (timer, ArmFailSafe(0), revoke, restart) or a commit; distinct = distinct serialized history",
+        "histories of up to 44 administrative operations (ArmFailSafe 0/short/long, CSRRequest add/update, AddTrustedRootCertificate good/corrupt, AddNOC/UpdateNOC good/wrong key/bad admin subject, ACL writes, key-set writes/removals, group key map writes and AddGroup / RemoveGroup / RemoveAllGroups on the application endpoints 1-4, Wi-Fi add/remove, SetRegulatoryConfig, CommissioningComplete, RevokeCommissioning, OpenBasicCommissioningWindow) from {PASE, CASE of existing fabric A, CASE of existing fabric B, CASE of the fabric being commissioned}, built from 1-3 well-ordered commissioning flows perturbed by insert/delete/duplicate/swap/re-address/truncate edits plus random operations, with waits, timer expiry, restarts and fail-the-n-th-KV-write in between, on a device with 0-2 pre-existing fabrics (Wi-Fi or Ethernet root endpoint, sessions planted or established by real PASE/CASE handshakes). Non-trivial: the history reached an accepted AddNOC or UpdateNOC, or an accepted ACL/key-set/network write under a fail-safe armed for that fabric, before that fail-safe context ended in a rollback (timer, ArmFailSafe(0), revoke, restart) or a commit; distinct = distinct serialized history",
     );
     run.assume("the reference state machine is written from the Matter Core specification text of ArmFailSafe, CSRRequest, AddTrustedRootCertificate, AddNOC, UpdateNOC and CommissioningComplete; 'session context' = accessing fabric (PASE before AddNOC = no fabric), as in the specification");
     run.assume("a repeated CSRRequest, AddTrustedRootCertificate of an already installed root, and all ACL/group/network/regulatory/window commands whose preconditions are met may be accepted or refused (class 'either'); what they changed is tracked from the observed outcome");
